@@ -105,4 +105,94 @@ Proof.
       destruct (IH _ _ _ _ _ _ _ _ _ Hg' Hs2 Hcoh' Hmemo2 Hab' H) as [Hend Hm']. split; [exact Hend|rewrite Hm'; exact Hm2].
     + rewrite strict in H. discriminate.
 Qed.
+
+(* ---------- ... and, when every hop is resolvable and the fuel exceeds the rank, the chain RETURNS ---------- *)
+Lemma finish_complete_k kind ref toks s' d t : fin_k E kind ref toks d = Some t -> resolve_finish E ref kind toks s' d = Done (set_dfail s' false, t).
+Proof.
+  unfold fin_k, resolve_finish. destruct (if String.eqb ref "" then Some d else ptr_get toks d) as [[| | | | |mm]|]; try discriminate.
+  destruct (norm E false (JObj mm) (TNamed kind)); try discriminate. intros H. inversion H. reflexivity.
+Qed.
+Lemma load_complete_k s u d : Inv docs rid s -> doc_at docs cwd u = Some d -> exists s', load docs cwd s u = Done (s', d).
+Proof.
+  intros [Hc Hr] Hd. unfold load, doc_at in *. destruct (nbase cwd (strip_frag u)) as [n| |]; try discriminate. cbn [pbind].
+  destruct (assoc n (cache s)) as [d0|] eqn:Ec.
+  - rewrite (Hc _ _ Ec) in Hd. inversion Hd; subst. eexists; reflexivity.
+  - rewrite Hd. eexists; reflexivity.
+Qed.
+Lemma resolve_complete_k kind s rroot ref base nref b1 t :
+  Inv docs rid s -> Coh cwd rroot base -> nuri ref base = POk nref ->
+  (is_local ref = true -> nbase cwd (strip_frag nref) = nbase cwd (strip_frag base)) ->
+  sem_target_k E docs cwd kind ref base = Some (b1, t) ->
+  exists s2, resolve E docs cwd live s rroot ref base kind = Done (s2, t).
+Proof.
+  intros Hs Hcoh Hn Hloc Ht. unfold sem_target_k in Ht. unfold resolve, is_local in *. rewrite Hn in *.
+  destruct (new_ref (s2l ref)) as [r| |]; try discriminate. cbn [pbind].
+  destruct (doc_at docs cwd nref) as [d|] eqn:Hd; try discriminate.
+  destruct (fin_k E kind ref (ptr_tokens (u_frag (r_url r))) d) as [t0|] eqn:Hf; try discriminate. inversion Ht; subst t0 b1.
+  set (toks := ptr_tokens (u_frag (r_url r))) in *.
+  assert (Hby : exists s2, ebind (load docs cwd s nref) (fun sd => resolve_finish E ref kind toks (fst sd) (snd sd)) = Done (s2, t)).
+  { destruct (load_complete_k s nref d Hs Hd) as [s' Hl]. rewrite Hl. cbn [ebind fst snd]. rewrite (finish_complete_k _ _ _ s' _ _ Hf). eexists; reflexivity. }
+  assert (Hru : forall ru, rroot = Some ru -> doc_at docs cwd ru = doc_at docs cwd base) by (intros ru Hr; unfold doc_at; rewrite (Hcoh ru Hr); reflexivity).
+  destruct (is_root r || has_fragment_only r) eqn:El; [|exact Hby].
+  assert (Hdb : doc_at docs cwd base = Some d) by (unfold doc_at in *; rewrite <- (Hloc eq_refl); exact Hd).
+  destruct rroot as [ru|].
+  - assert (Hvia : exists s2, match load docs cwd s ru with Done (s', d0) => resolve_finish E ref kind toks s' d0
+                    | _ => ebind (load docs cwd s nref) (fun sd => resolve_finish E ref kind toks (fst sd) (snd sd)) end = Done (s2, t)).
+    { assert (Hdr : doc_at docs cwd ru = Some d) by (rewrite (Hru ru eq_refl); exact Hdb).
+      destruct (load_complete_k s ru d Hs Hdr) as [s' Hl]. rewrite Hl. rewrite (finish_complete_k _ _ _ s' _ _ Hf). eexists; reflexivity. }
+    destruct live as [[lu ld]|]; [|exact Hvia]. destruct (String.eqb ru lu) eqn:Eru; [|exact Hvia].
+    apply String.eqb_eq in Eru. subst lu. pose proof (live_served ru ld eq_refl) as Hl. rewrite (Hru ru eq_refl), Hdb in Hl. inversion Hl; subst ld.
+    rewrite (finish_complete_k _ _ _ s _ _ Hf). eexists; reflexivity.
+  - destruct (String.eqb base ""); [exact Hby|].
+    destruct (load_complete_k s base d Hs Hdb) as [s' Hl]. rewrite Hl. rewrite (finish_complete_k _ _ _ s' _ _ Hf). eexists; reflexivity.
+Qed.
+Lemma transitive_complete_k s rroot base ref nref br : (exists r, new_ref (s2l ref) = POk r) -> nuri ref base = POk nref -> new_ref (s2l base) = POk br ->
+  exists rc, transitive s rroot base ref = Done rc.
+Proof.
+  intros [r Hr] Hn Hb. unfold transitive. rewrite Hr, Hn, Hb. cbn [pbind].
+  destruct (is_root r || has_fragment_only r); [eexists; reflexivity|].
+  destruct (str_prefix (l2s (ref_string br)) nref); eexists; reflexivity.
+Qed.
+
+(* every hop designates an element, and its base is a location *)
+Hypothesis GE_resolvable : forall kind b m, GE kind b m -> get_str "$ref" m <> "" ->
+  exists nref b1 tm br, nuri (get_str "$ref" m) b = POk nref /\
+    sem_target_k E docs cwd kind (get_str "$ref" m) b = Some (b1, JObj tm) /\ new_ref (s2l b) = POk br.
+
+Theorem deref_succeeds kind : forall fuel s parents rroot base m,
+  GE kind base m -> Inv docs rid s -> Coh cwd rroot base -> MemoIn s -> above parents base m ->
+  (forall nref, get_str "$ref" m <> "" -> nuri (get_str "$ref" m) base = POk nref -> rk nref < fuel) ->
+  exists s' m1 rr1 b1, deref E docs cwd OP live fuel s parents rroot base kind m = Done (s', m1, rr1, b1).
+Proof.
+  induction fuel as [|f IH]; intros s parents rroot base m Hg Hs Hcoh Hmemo Hab Hfuel; cbn [deref].
+  - destruct (String.eqb (get_str "$ref" m) "") eqn:Ec; [do 4 eexists; reflexivity|].
+    apply String.eqb_neq in Ec. destruct (GE_resolvable _ _ _ Hg Ec) as [nref [b1 [tm [br [En _]]]]]. pose proof (Hfuel nref Ec En). lia.
+  - destruct (String.eqb (get_str "$ref" m) "") eqn:Ec; [do 4 eexists; reflexivity|].
+    apply String.eqb_neq in Ec. destruct (GE_resolvable _ _ _ Hg Ec) as [nref [b1 [tm [br [En [Ht Hbr]]]]]].
+    rewrite En. cbn [pbind].
+    destruct (is_circular s nref parents) as [s1 circ] eqn:Eci.
+    destruct circ.
+    { exfalso. apply is_circular_true in Eci. destruct Eci as [[Hm _]|[Hp _]].
+      - apply mem_str_In in Hm. apply (fresh nref); [exists kind, base, m; auto|apply Hmemo; exact Hm].
+      - apply mem_str_In in Hp. pose proof (Hab nref nref Hp Ec En). lia. }
+    pose proof (is_circular_false _ _ _ _ Eci) as ->.
+    pose proof (GE_same _ _ _ _ Hg Ec En) as Hsame.
+    destruct (resolve_complete_k kind s rroot (get_str "$ref" m) base nref b1 (JObj tm) Hs Hcoh En (fun Hl => Hsame (or_introl Hl)) Ht) as [s2 Eres].
+    rewrite Eres.
+    pose proof (resolve_memo_k _ _ _ _ _ _ _ Eres) as Hm2.
+    destruct (resolve_sem_k E docs cwd live rid live_served _ _ _ _ _ _ _ _ Hs Hcoh En (fun Hl => Hsame (or_introl Hl)) Eres) as [Ht' Hs2].
+    assert (Hr : exists r, new_ref (s2l (get_str "$ref" m)) = POk r).
+    { unfold sem_target_k in Ht. destruct (new_ref (s2l (get_str "$ref" m))) as [r| |]; try discriminate. exists r. reflexivity. }
+    destruct (transitive_complete_k s2 rroot base _ _ _ Hr En Hbr) as [rc Htr]. rewrite Htr. cbn [ebind].
+    destruct (transitive_next _ _ _ _ _ _ _ Hcoh En Hsame Htr) as [Hnb Hcoh']. rewrite Hnb.
+    rewrite (GE_holder _ _ _ Hg Ec).
+    destruct (GE_target _ _ _ _ _ Hg Ec Ht') as [Hg' Hmerge]. unfold merge_over in Hmerge. rewrite Hmerge.
+    assert (Hmemo2 : MemoIn s2) by (intros x Hx; apply Hmemo; rewrite <- Hm2; exact Hx).
+    assert (Hab' : above (parents ++ [nref])%list (next_base (get_str "$ref" m) base nref) tm).
+    { intros p nref1 Hp Hr1 Hn1. pose proof (GE_rank _ _ _ _ _ _ _ Hg Ec En Ht' Hr1 Hn1) as Hlt.
+      apply in_app_or in Hp. destruct Hp as [Hp|[<-|[]]]; [|exact Hlt].
+      pose proof (Hab p nref Hp Ec En). lia. }
+    apply (IH _ _ _ _ _ Hg' Hs2 Hcoh' Hmemo2 Hab').
+    intros nref1 Hr1 Hn1. pose proof (GE_rank _ _ _ _ _ _ _ Hg Ec En Ht' Hr1 Hn1). pose proof (Hfuel nref Ec En). lia.
+Qed.
 End Chain.
